@@ -289,6 +289,7 @@ pub fn ir() -> &'static Ir {
                 ArgMeta { name: "tail".into(), ty: Ty::List(Box::new(Ty::Prim(Prim::String))), kind: PKind::Path, param_id: "tail".into(), safety: None, legacy_safe: false },
                 ArgMeta { name: "q".into(), ty: Ty::List(Box::new(Ty::Prim(Prim::Integer))), kind: PKind::Query, param_id: "k&ey".into(), safety: None, legacy_safe: false },
                 ArgMeta { name: "opt".into(), ty: Ty::Opt(Box::new(Ty::Prim(Prim::Integer))), kind: PKind::Query, param_id: "o".into(), safety: None, legacy_safe: false },
+                ArgMeta { name: "optNum".into(), ty: Ty::Opt(Box::new(Ty::Prim(Prim::Integer))), kind: PKind::Header, param_id: "X-Opt-Num".into(), safety: None, legacy_safe: false },
             ],
             returns: Some(Ty::Prim(Prim::String)),
             limit: None,
